@@ -489,19 +489,52 @@ func (g *gen) focusIDs() []string {
 			long = append(long, x)
 		}
 	}
-	cats := [][]string{depFold, laterListed, bareOnlyPlus, long, dup, t.Active, t.Active, g.pick2(g.fam), g.pick2(g.fam)}
+	cats := [][]string{depFold, laterListed, bareOnlyPlus, long, dup, t.Active, g.pick2(g.fam), g.pick2(g.fam)}
 	var out []string
-	for len(out) < 2 {
+	for len(out) < 1 {
 		c := cats[g.rng.Intn(len(cats))]
 		if len(c) > 0 {
 			out = append(out, g.pick(c))
 		}
 	}
-	// a member of the same table family as the first id (if any), so that range lookups happen
+	// members of EVERY table family that lists the focus id (an id listed twice brings both families in)
+	base := strings.TrimSuffix(strings.TrimSuffix(out[0], "-or-later"), "-only")
 	for _, f := range g.fam {
-		if inList(f, out[0]) || inList(f, strings.TrimSuffix(out[0], "-or-later")) {
-			out = append(out, g.pick(f))
-			break
+		if inList(f, out[0]) || inList(f, base) {
+			out = append(out, f[len(f)-1], g.pick(f))
+		}
+	}
+	if len(out) == 1 {
+		out = append(out, g.pick(t.Active))
+	}
+	return out
+}
+
+// dupFocus: the ids that sit at several table positions together with the last member of each of their families
+func (g *gen) dupFocus(reverse bool) []string {
+	pos := map[string][]int{}
+	for fi, f := range g.fam {
+		seen := map[string]bool{}
+		for _, x := range f {
+			if !seen[x] {
+				pos[x] = append(pos[x], fi)
+				seen[x] = true
+			}
+		}
+	}
+	var out []string
+	for x, fs := range pos {
+		if len(fs) > 1 {
+			out = append(out, x)
+			for _, fi := range fs {
+				out = append(out, g.fam[fi][len(g.fam[fi])-1])
+			}
+		}
+	}
+	sortStrings(out)
+	if reverse {
+		for i, j := 0, len(out)-1; i < j; i, j = i+1, j-1 {
+			out[i], out[j] = out[j], out[i]
 		}
 	}
 	return out
@@ -515,11 +548,25 @@ func sortStrings(l []string) {
 	}
 }
 
+// altCase: ONE fixed non-list spelling per id (so that the same spelling recurs with and without a suffix)
+func altCase(s string) string {
+	b := []byte(s)
+	for i, c := range b {
+		if i%2 == 0 && c >= 'a' && c <= 'z' {
+			b[i] = c - 32
+		} else if i%2 == 1 && c >= 'A' && c <= 'Z' {
+			b[i] = c + 32
+		}
+	}
+	return string(b)
+}
+
 func (g *gen) idVariants(x string) []string {
 	base := strings.TrimSuffix(strings.TrimSuffix(x, "-or-later"), "-only")
-	v := []string{x, strings.ToLower(x), strings.ToUpper(x), g.caseVariant(x), base, base + "+", strings.ToLower(base) + "+", g.caseVariant(base) + "+",
-		base + "-or-later", base + "-only", strings.ToLower(base) + "-or-later", "LicenseRef-" + x, "LicenseRef-" + strings.ToLower(x), "DocumentRef-" + x + ":LicenseRef-" + x,
-		"(" + x + ")", " " + x, x + " ", x + "\t", x + "\n", "\u00a0" + x}
+	alt := altCase(base)
+	v := []string{x, strings.ToLower(x), base, base + "+", alt, alt + "+", alt + "-or-later", strings.ToLower(base) + "+", strings.ToUpper(base),
+		base + "-or-later", base + "-only", "LicenseRef-" + base, "LicenseRef-" + alt, base + "+ OR " + base + "-or-later",
+		"(" + x + ")", " " + x, x + "\t", x + "\n"}
 	return v
 }
 
@@ -540,10 +587,25 @@ func (g *gen) wsVariant(s string) string {
 }
 
 // sessionEvents: n sessions of about a dozen calls each
-func (g *gen) sessionEvents(n int) []Event {
+func (g *gen) sessionEvents(n int, reverse bool) []Event {
 	var evs []Event
 	for i := 0; i < n; i++ {
 		ids := g.focusIDs()
+		if i == 0 {
+			// the first session of a process is about the ids listed at several table positions, walked in a
+			// fixed order (forward in one process, backward in another): whichever family a lazily built index
+			// sees first / last, one of the two processes has it the other way round
+			if d := g.dupFocus(reverse); len(d) > 0 {
+				for round := 0; round < 2; round++ {
+					for _, x := range d {
+						for _, y := range d {
+							e, l := x+"+", []string{y}
+							evs = append(evs, eventOf(obsSatisfies(e, l), e, l))
+						}
+					}
+				}
+			}
+		}
 		exc := g.pick(g.t.Exceptions)
 		other := g.pick(g.t.Active)
 		var texts []string
@@ -556,7 +618,7 @@ func (g *gen) sessionEvents(n int) []Event {
 		for _, c := range comp {
 			texts = append(texts, c, g.wsVariant(c))
 		}
-		for k := 0; k < 12; k++ {
+		for k := 0; k < 24; k++ {
 			e := g.pick(texts)
 			switch g.rng.Intn(5) {
 			case 0:
@@ -603,7 +665,7 @@ func cmdDrive(args []string) int {
 	enc.SetEscapeHTML(false)
 	var pre []Event
 	if *flavor == "session" {
-		pre = g.sessionEvents(*n)
+		pre = g.sessionEvents(*n, *seed%2 == 0)
 		*n = len(pre)
 	}
 	for i := 0; i < *n; i++ {
